@@ -1,5 +1,5 @@
 SPECIFICATION Spec
-CONSTANT Big = FALSE
+CONSTANT Big = FALSE Wide = FALSE
 INVARIANTS Inv AddableIff
 PROPERTY DeployExact
 CHECK_DEADLOCK FALSE
